@@ -113,10 +113,32 @@ theorem Pres.setFromConfigure : ∀ (l : List (Key × Option Val)) (d : Bool), P
     unfold MesonModel.Options.setFromConfigure
     exact Pres.bind' (Pres.configureOne kv) (fun b => Pres.setFromConfigure r (d || b))
 
+/-- re-pointing children changes neither kind nor value of any object -/
+theorem Pres.repointChildren (oid nid : Nat) : Pres (repointChildren oid nid) := by
+  unfold MesonModel.Options.repointChildren
+  apply Pres.modify
+  intro s hs
+  split
+  · exact hs
+  · intro o ho
+    simp only [List.mem_map] at ho
+    obtain ⟨c, hc, rfl⟩ := ho
+    have := hs c hc
+    split
+    · split <;> exact this
+    · exact this
+
+theorem Pres.replaceObj (key : Key) (nobj old : Obj) (oid : Nat) (b : Bool) (ho : conforms nobj.kind nobj.value = true) :
+    Pres (replaceObj key nobj old oid b) := by
+  unfold MesonModel.Options.replaceObj
+  repeat (first | exact Pres.alloc (o := { nobj with parent := _, yielding := _ }) ho
+                | exact Pres.repointChildren _ _ | pres_core)
+
 theorem Pres.updateOne (sub : Str) (kv : Key × Obj) (ho : conforms kv.2.kind kv.2.value = true) :
     Pres (updateOne sub kv) := by
   unfold MesonModel.Options.updateOne
-  repeat (first | exact Pres.setOption _ _ _ | exact Pres.addProjectOption _ _ ho | exact Pres.alloc ho | pres_core)
+  repeat (first | exact Pres.setOption _ _ _ | exact Pres.addProjectOption _ _ ho | exact Pres.replaceObj _ _ _ _ _ ho
+                | pres_core)
 
 theorem Pres.forEachMem {γ : Type} {f : γ → M Unit} : ∀ (l : List γ), (∀ x ∈ l, Pres (f x)) → Pres (M.forEach f l)
   | [], _ => Pres.pure' ()
